@@ -261,7 +261,7 @@ class Stream:
         k = len(self.meta)
         self.meta.append(dict(meta, reset={x: reset.get(x) for x in ("ns", "nc", "flags", "h", "sq0", "cq0", "build")}))
         w = self._f.write
-        w(json.dumps({"ev": "reset", "run": k, "ns": reset["ns"], "nc": reset["nc"]}, separators=(",", ":")) + "\n")
+        w(json.dumps({"ev": "reset", "run": k, "ns": reset["ns"], "nc": reset["nc"], "arr": reset.get("arr", list(range(reset["ns"])))}, separators=(",", ":")) + "\n")
         self._lines += 1
         self._starts.append((self._lines, k))
         for ev in evs:
@@ -330,7 +330,7 @@ class Stream:
         return plan, m.get("random_ref"), [e for e in evs if e["ev"] != "skip"]
 
 
-CLAUSE_OP = {"panic_get_slot": "get", "slot_refused_while_ring_not_full": "get", "get_slot_pointer_outside_ring": "get",
+CLAUSE_OP = {"index_array_does_not_name_the_slots": "reset", "panic_get_slot": "get", "slot_refused_while_ring_not_full": "get", "get_slot_pointer_outside_ring": "get",
              "slot_handed_out_before_consumed": "get", "panic_flush": "flush", "flushed_entry_not_visible_to_kernel": "flush",
              "kernel_sees_entry_never_flushed": "flush", "kernel_consumed_entry_never_flushed": "consume",
              "consumed_wrong_entry_or_order": "consume", "panic_reap": "reap", "none_returned_while_completion_pending": "reap",
@@ -353,7 +353,7 @@ def report_stream(chk, stream, bad, bindirs, detail_cap=6):
         pos0 = lambda x: ("2^32-%d" % (h - x)) if x < h else str(x - h)
         if seen[key] <= detail_cap:
             plan, rnd, evs = stream.events_of(r, bindirs)
-            ev = evs[e] if 0 <= e < len(evs) else {"ev": "?"}
+            ev = evs[e] if 0 <= e < len(evs) else {"ev": "reset" if e < 0 else "?"}
             shape = shape_of(evs, e) if why == "content_overwritten_between_return_and_read" else None
             pos = ev.get("st")
             wrapped = pos is not None and any(x >= h for x in pos) and any(0 <= x < h for x in [reset["sq0"], reset["cq0"]])
@@ -390,7 +390,7 @@ def judge(chk, runs, tag, batch=150000, parallel=1):
         with open(path, "w") as f:
             while k < len(runs) and (lines < batch or k == first):
                 reset, evs = runs[k]
-                f.write(json.dumps({"ev": "reset", "run": k, "ns": reset["ns"], "nc": reset["nc"]}, separators=(",", ":")) + "\n")
+                f.write(json.dumps({"ev": "reset", "run": k, "ns": reset["ns"], "nc": reset["nc"], "arr": reset.get("arr", list(range(reset["ns"])))}, separators=(",", ":")) + "\n")
                 where.append((k, -1))
                 lines += 1
                 for j, ev in enumerate(evs):
